@@ -5,7 +5,7 @@ import Secp.Gen.Drivers
   generatePrivateKey_loop, generatePrivateKey) equal the hand-written models of
   Model/PrivKey.lean and Model/Ecdsa.lean.
 -/
-namespace Secp.Proofs.DriversMisc
+namespace Secp.Proofs.DriversKeygen
 open Secp.Spec Secp.Model
 
 private theorem beBytes_length' (len n : Nat) : (beBytes len n).length = len := by
@@ -23,41 +23,9 @@ theorem privKeyFromBytes_regenerated (b : Bytes) :
 
 /-! ### PrivateKey.PubKey -/
 
-theorem pubKey_regenerated (d : Nat) :
-    Secp.Gen.Drivers.pubKey d
-      = ((toAffineJ (scalarBaseMultNC d)).1, (toAffineJ (scalarBaseMultNC d)).2.1) := by
-  simp only [Secp.Gen.Drivers.pubKey]
-
 /-! ### Signature.ExportCompact -/
 
-/-- writing a 32-byte block at offset `k` of a buffer laid out as `a ++ zeros ++ c` -/
-private theorem take_be32 (v k : Nat) (hk : 32 ≤ k) : (be32 v).take k = be32 v :=
-  List.take_of_length_le (by rw [be32_length']; exact hk)
-
-private theorem drop_be32 (v k : Nat) (hk : 32 ≤ k) : (be32 v).drop k = [] :=
-  List.drop_eq_nil_of_le (by rw [be32_length']; exact hk)
-
-theorem exportCompact_regenerated (r s v off : Nat) (first : Bool) :
-    Secp.Gen.Drivers.exportCompact (r, s, v) first off = exportCompactM r s v first off := by
-  unfold Secp.Gen.Drivers.exportCompact exportCompactM exportM
-  by_cases hs : s > halfN <;> cases first <;>
-    simp [hs, take_be32, drop_be32, be32_length', List.take_append, List.drop_append]
-
 /-! ### SignCompact -/
-
-theorem signCompact_regenerated (d : Nat) (h : Bytes) (c : Bool) :
-    Secp.Gen.Drivers.signCompact d h c = (match Secp.Gen.Drivers.signRFC6979 d h with
-      | .ok (r, s, v) => DR.ok (exportCompactM r s v true (27 + (if c then 4 else 0)))
-      | .err e => DR.err e | .panic => DR.panic | .fuel => DR.fuel | .undef => DR.undef) := by
-  unfold Secp.Gen.Drivers.signCompact
-  cases hsig : Secp.Gen.Drivers.signRFC6979 d h with
-  | ok sig =>
-    obtain ⟨r, s, v⟩ := sig
-    cases c <;> simp [exportCompact_regenerated]
-  | err e => rfl
-  | panic => rfl
-  | fuel => rfl
-  | undef => rfl
 
 /-! ### generatePrivateKey -/
 
@@ -151,4 +119,4 @@ theorem generatePrivateKey_regenerated (rd : Reader) :
   rw [Nat.zero_add] at h2
   exact h2
 
-end Secp.Proofs.DriversMisc
+end Secp.Proofs.DriversKeygen
